@@ -15,12 +15,25 @@ def make_cases(rng, tier, n):
         else:
             spec = "g:%d:%d" % (rng.randrange(7000, 9000), size)
         keep = [b"workdir", b"workdir/inner"] if c.get("cwd") else []
+        if rng.random() < 0.15:
+            # the same bytes tracked twice (a pass-through stage): two file artifacts of two stages share one object
+            dup = "g:%d:%d" % (rng.randrange(1000), rng.choice([5, 700, 70000]))
+            c["init"] += [("file", b"dup_a.bin", dup), ("file", b"dup_b.bin", dup)]
+            c["stages"] += [(b"dup_a.yaml", dict(cmd=b"", wd=b".", out=[(b"dup_a.bin", "")])),
+                            (b"dup_b.yaml", dict(cmd=b"", wd=b".", out=[(b"dup_b.bin", "")], **{"in": [(b"dup_a.bin", "")]}))]
         ops = [("commit", rng.choice("lc"), []), ("corrupt", rng.randrange(200), spec)]
-        if rng.random() < 0.5:
+        r = rng.random()
+        if r < 0.35:
             ops.append(("clone", keep))
-        else:
+        elif r < 0.6:
             for p, fl, sp in s1eval.artifacts(c):
                 ops.append(("rm", p))
+        elif r < 0.8:
+            # only some artifacts are gone; the others stay as they are (links after a link commit, copies after a copy commit)
+            arts_ = s1eval.artifacts(c)
+            for p, fl, sp in rng.sample(arts_, max(1, len(arts_) // 2)):
+                ops.append(("rm", p))
+        # else: the workspace stays as committed
         ops.append(("checkout", "c", False, []))
         if rng.random() < 0.4:
             ops.append(("checkout", "c", False, []))       # a retry must not succeed either
@@ -45,14 +58,27 @@ def oracle(run):
     for p, d in rec.items():
         referenced |= s1eval.reachable(steps[0]["snap"], d)
     hit = corrupted & referenced
+    prev = steps[1]["snap"]
     for st in steps[2:]:
         if st["op"][0] != "checkout":
+            prev = st["snap"]
             continue
         if hit and st["rc"] == 0:
-            # success is only acceptable if no file with wrong bytes was placed
-            got = s1eval.logical(st["snap"])
-            wrong = [p for p, val in got.items() if val[0] == "f" and p in committed and committed[p] != val]
-            v.append(("success-with-corruption", "checkout --copy exited 0 although object(s) %s are corrupted; files with wrong bytes: %s" % (sorted(hit)[:2], wrong[:3])))
+            # the files checkout has to produce from a corrupted object: committed with a digest in `hit`, and absent or a link now
+            ws_prev, _ = s1eval.parse_snap(prev)
+            arts_ = [p for p, fl, sp in s1eval.artifacts(run["case"]) if "s" not in fl]
+            needs_read = [p for p, val in committed.items() if val[0] == "f" and val[1] in hit
+                          and any(p == a or p.startswith(a + b"/") for a in arts_)
+                          and (p not in ws_prev or ws_prev[p][0] != "f")]
+            ws_now, _ = s1eval.parse_snap(st["snap"])
+            wrong = [p for p, val in ws_now.items() if val[0] == "f" and p in committed and committed[p][0] == "f" and committed[p][1] != val[1]
+                     and (p not in ws_prev or ws_prev[p] != val)]
+            if wrong:
+                v.append(("wrong-bytes-placed", "checkout --copy exited 0 and placed bytes whose digest differs from the recorded checksum: %s (corrupted object(s) %s)" % (
+                    wrong[:3], sorted(hit)[:2])))
+            elif needs_read:
+                v.append(("success-with-corruption", "checkout --copy exited 0 although it had to produce %s from corrupted object(s) %s" % (needs_read[:3], sorted(hit)[:2])))
+        prev = st["snap"]
     return v
 
 
